@@ -1,7 +1,7 @@
 #!/usr/bin/env python3
 """run/e2e.py <suite> <tier> <seed> — end-to-end BOUNDED engines: the real CLI binary, built from /repo's working tree,
 on generated projects. Prints one JSON object like the tools/replay engines. Suites: tuples (C18, C01), output (C03)."""
-import itertools, json, os, shutil, subprocess, sys, tempfile
+import itertools, json, os, re, shutil, subprocess, sys, tempfile
 sys.path.insert(0, os.path.dirname(os.path.abspath(__file__)))
 import time
 import engine as E
@@ -2268,11 +2268,47 @@ def suite_deadvalues(exe, tier, seed):
                                 break
             if len(samples) < 4 and pi % 9 == 0:
                 samples.append({"program": pi, "lines": len(prog.lines), "claims_so_far": claims})
+        # ---- templates: hand-written shapes in which the value of the marked variable decides a constraint, a signal
+        # assignment, an assertion, a dimension or a branch: no CS0006 / CS0007 / CS0008 claim may name it
+        TPL = "pragma circom 2.0.0;\ntemplate Sub() { signal input a; signal output b; b <== a * a; }\ntemplate T(n) {\n  signal input in; signal input arr[3]; signal output out;\n%s\n}\ncomponent main = T(2);\n"
+        shapes = [
+            ("single-name-constraint", "  var t = in * 2;\n  t === 4;\n  out <== in;", ["t"]),
+            ("sum-equals-one", "  var t = 0;\n  for (var i = 0; i < 3; i++) { t += arr[i]; }\n  t === 1;\n  out <== in;", ["t"]),
+            ("parameter-in-single-name-constraint", "  var t = in * n;\n  t === 4;\n  out <== in;", ["t", "n"]),
+            ("array-slot-in-single-name-constraint", "  var t[2];\n  t[0] = in * 3;\n  t[0] * t[0] === t[0];\n  out <== in;", ["t"]),
+            ("constraint-with-a-signal", "  var t = in * 2;\n  t === out;\n  out <== in;", ["t"]),
+            ("feeds-constraint-assignment", "  var t = in * 2;\n  out <== t;", ["t"]),
+            ("feeds-signal-assignment", "  var t = in + 1;\n  out <-- t;\n  out === in + 1;", ["t"]),
+            ("feeds-assert", "  var t = in;\n  assert(t == 1);\n  out <== in;", ["t"]),
+            ("feeds-dimension", "  var t = n;\n  signal s[t];\n  s[0] <== in;\n  out <== s[0];", ["t", "n"]),
+            ("feeds-index", "  var t = n - 2;\n  out <== arr[t];", ["t", "n"]),
+            ("decides-branch", "  var t = n;\n  if (t == 1) { out <-- in; } else { out <-- 2 * in; }\n  out === in;", ["t", "n"]),
+            ("decides-loop-bound", "  var t = n;\n  var acc = 0;\n  for (var i = 0; i < t; i++) { acc += arr[i]; }\n  out <== acc;", ["t", "n", "acc"]),
+            ("feeds-component-input", "  var t = in * 2;\n  component c = Sub();\n  c.a <== t;\n  out <== c.b;", ["t"]),
+            ("feeds-template-parameter", "  var t = n + 1;\n  signal s[t];\n  for (var i = 0; i < t; i++) { s[i] <== in; }\n  out <== s[0];", ["t", "n"]),
+            ("through-second-variable", "  var t = in * 2;\n  var u = t + 1;\n  u === 5;\n  out <== in;", ["t", "u"]),
+            ("through-ternary", "  var t = n;\n  var u = t == 1 ? in : 2 * in;\n  out <== u;", ["t", "u", "n"]),
+        ]
+        for (sname, body, names) in shapes:
+            path = os.path.join(d, "t.circom")
+            open(path, "w").write(TPL % body)
+            rc, out, err = run_cli(exe, ["-v", path], d)
+            evals += 1; nontrivial += 1
+            if rc is None or "panicked" in err or rc not in (0, 1):
+                add("run", {"shape": sname}, f"template shape {sname}: the tool aborted or hung (exit {rc})")
+                continue
+            for (code, ln, text) in coded_findings(out):
+                m = re.search(r"(?:variable|parameter|value assigned to) `(\w+)`", text)
+                if code in ("CS0006", "CS0007", "CS0008") and m and m.group(1) in names:
+                    claims += 1
+                    first = text.split("\n")[0]
+                    add(f"template:{sname}", {"shape": sname, "source": TPL % body},
+                        f"template shape {sname}: `{first.strip()}` — but the value of `{m.group(1)}` decides a constraint, a signal assignment, an assertion, a dimension or a branch of the template:\n{body}")
     finally:
         shutil.rmtree(d, ignore_errors=True)
     return {"unit": "e2e-deadvalues", "evaluations": evals, "distinct_nontrivial": nontrivial, "exhaustive": False,
             "rule": "the real CLI on generated functions (four locals declared with initial values, then assignments, compound assignments, if / else, counted for loops up to depth 2, early returns inside branches and loops, a final return; operands are parameters, locals, loop counters and small constants; +, multiplication by a small constant and the ternary `c ? a : b`): for every CS0006 (`value never read`) and CS0008 (`does not influence the return value`) finding anchored at an assignment, an interpreter of the generated program runs the function on 16 inputs twice — as written, and with the value assigned at that statement replaced by the value plus one — and the return values (for CS0006 also every branch and loop decision) must agree; for CS0007 (`parameter never read`) the parameter itself is varied",
-            "bound": f"{n_prog} generated functions of 3..8 body statements (seeded); 16 inputs each; {claims} claims examined",
+            "bound": f"{n_prog} generated functions of 3..8 body statements (seeded); 16 inputs each; 16 hand-written template shapes (a variable that alone makes up a constraint, feeds a signal assignment, an assertion, a dimension, an index, a branch, a loop bound, a component input); {claims} claims examined",
             "samples": samples, "violations": viol}
 
 
